@@ -470,7 +470,9 @@ impl Engine {
                     let failed_once = Cell::new(false);
                     let last_failure: RefCell<Option<Failure>> = RefCell::new(None);
                     let result = runner.run(&strategy, |case| {
-                        if !failed_once.get() && stop.load(Ordering::Relaxed) {
+                        // another shard already holds a minimal failure: wind down
+                        // (also cuts this shard's own shrinking short)
+                        if stop.load(Ordering::Relaxed) {
                             return Ok(());
                         }
                         let obs = Obs::new();
